@@ -310,16 +310,6 @@ Qed.
 
 (* ---- a move of ONE sequence sub-automaton of the current block (q: x -> y, y not idle), with whatever it writes into
         the cells of that sequence ---- *)
-Lemma waiting_block r b q : waiting r b q -> M r -> in_blocks sh r (s_cb (r_s r)) ->
-  (exists b0 qs0 rest, r_ph r = RRecover ((b0, qs0) :: rest) /\ s_cb (r_s r) = b0) ->
-  (b = s_cb (r_s r) /\ nth_error (seqs_of (r_s r)) q = Some SIdle) \/ b <> s_cb (r_s r).
-Proof.
-  intros Hw HM _ (b0 & qs0 & rest & Hph & Hcb). unfold waiting in Hw. rewrite Hph in Hw.
-  destruct Hw as [(-> & _ & Hx)|(qs' & Hin & _)]; [left; split; [now symmetry|exact Hx]|right].
-  pose proof (m_todo r HM _ Hph) as Hnd. cbn [map fst] in Hnd. inversion Hnd as [|? ? Hni _]; subst.
-  intro E. apply Hni. rewrite <- E. change b with (fst (b, qs')). now apply in_map.
-Qed.
-
 Lemma M_update_gen r r' b q x y :
   Inv sh I r -> M r -> in_blocks sh r b ->
   (forall b' q' rs', seq_of sh b' q' = Some rs' -> (b', q') <> (b, q) -> msame (mget r) (mget r') b' q' (length rs')) ->
